@@ -5,19 +5,37 @@ set -u
 cd "$(dirname "$0")"
 export GOFLAGS=-mod=mod GOPROXY=off GOSUMDB=off GOTOOLCHAIN=local
 export VERIF_DIR="$(pwd)"
+REPO="${VERIF_REPO:-/repo}"
 mkdir -p bin evidence
-build() {
-  go build -o bin/vcheck ./cmd/vcheck 2> bin/build.log || { cat bin/build.log >&2; echo "BUILD-FAILED: harness does not compile against /repo" >&2; exit 2; }
+build_plain() {
+  go build -o bin/vcheck ./cmd/vcheck 2> bin/build.log || { cat bin/build.log >&2; echo "BUILD-FAILED: harness does not compile against $REPO" >&2; exit 2; }
 }
+# instrumented build: the package is rewritten into a scratch directory and compiled through
+# go build -overlay; /repo itself is never touched.
+build_instr() {
+  go build -o bin/vinstr ./cmd/vinstr 2> bin/build-vinstr.log || { cat bin/build-vinstr.log >&2; return 1; }
+  WORK="$(mktemp -d)"; trap 'rm -rf "$WORK"' EXIT
+  bin/vinstr "$REPO" "$WORK/ov" > bin/vinstr.log 2>&1 || { cat bin/vinstr.log >&2; return 1; }
+  go build -tags instr -overlay "$WORK/ov/overlay.json" -o bin/vcheck-instr ./cmd/vcheck 2> bin/build-instr.log || { cat bin/build-instr.log >&2; return 1; }
+  return 0
+}
+needs_instr() { case "$1" in C01|C03|C09) return 0;; *) return 1;; esac; }
 case "${1:-}" in
   setup)
-    build
-    go build -o bin/vinstr ./cmd/vinstr 2>/dev/null || true
+    build_plain
+    build_instr || echo "warning: instrumented build failed" >&2
+    go build -race -o bin/vrace ./cmd/vrace 2>/dev/null || true
     exit 0;;
   replay)
-    build
-    exec bin/vcheck replay "$2";;
+    build_plain
+    BIN=bin/vcheck
+    if grep -q '"property": "C0[139]"' "$2" 2>/dev/null && build_instr; then BIN=bin/vcheck-instr; fi
+    "$BIN" replay "$2"; exit $?;;
   *)
-    build
-    exec bin/vcheck "$1" "${2:-quick}";;
+    build_plain
+    BIN=bin/vcheck
+    if needs_instr "$1"; then
+      if build_instr; then BIN=bin/vcheck-instr; else echo "warning: instrumented build failed, running the plain build" >&2; fi
+    fi
+    "$BIN" "$1" "${2:-quick}"; exit $?;;
 esac
